@@ -13,7 +13,7 @@ def witness_failed_check_keeps_taint(out):
     base = os.path.join(vlib.scratch(), "c13taintcheck")
     shutil.rmtree(base, ignore_errors=True)
     evals = 0
-    for variant in ("exit-status", "expected-output"):
+    for variant in ("exit-status", "expected-output", "missing-output"):
         d = os.path.join(base, variant)
         ws, root = os.path.join(d, "ws"), os.path.join(d, "root")
         os.makedirs(ws); os.makedirs(root)
@@ -21,9 +21,14 @@ def witness_failed_check_keeps_taint(out):
         runs = os.path.join(d, "runs.log")
         check = {"command": 'test -f "%s"' % probe} if variant == "exit-status" else \
                 {"command": 'cat "%s" 2>/dev/null || echo down' % probe, "expected_output": "up"}
-        json.dump({"targets": [{"name": "t", "inputs": ["in.txt"], "outputs": ["out.txt"],
-                                "command": 'echo run >> "%s"; cp in.txt out.txt' % runs, "output_checks": [check]}]},
-                  open(os.path.join(ws, "BUILD.json"), "w"))
+        t = {"name": "t", "inputs": ["in.txt"], "outputs": ["out.txt"],
+             "command": 'echo run >> "%s"; cp in.txt out.txt' % runs, "output_checks": [check]}
+        if variant == "missing-output":
+            # no check: with the probe down the command exits 0 WITHOUT creating its declared output -- the execution fails
+            # while its outputs are collected, after the command and all checks passed
+            t = {"name": "t", "inputs": ["in.txt"], "outputs": ["out.txt"],
+                 "command": 'echo run >> "%s"; rm -f out.txt; if [ -f "%s" ]; then cp in.txt out.txt; fi' % (runs, probe)}
+        json.dump({"targets": [t]}, open(os.path.join(ws, "BUILD.json"), "w"))
         open(os.path.join(ws, "in.txt"), "w").write("v1\n")
         open(os.path.join(ws, "grog.toml"), "w").write("")
         open(probe, "w").write("up\n")
@@ -55,9 +60,9 @@ def witness_failed_check_keeps_taint(out):
         if got_ok[:3] != want_ok[:3] or got_exec[:3] != want_exec[:3]:
             out.violation("taint/check witness (%s): set-up did not behave as expected: %s" % (variant, steps[:3]), desc, no_input=True)
         elif got_ok[3]:
-            out.violation("a build whose target's output check fails after execution succeeded (%s)" % variant, desc)
+            out.violation("a build whose target's output check fails (or whose declared output is missing) after execution succeeded (%s)" % variant, desc)
         elif got_exec[4] != 1:
-            out.violation("a taint was consumed by an execution that FAILED (post-execution output check, %s): the next build restores the "
+            out.violation("a taint was consumed by an execution that FAILED (after the command exited 0: post-execution output check or a declared output that was not created; %s): the next build restores the "
                           "tainted target from the cache instead of executing it" % variant, desc)
         elif got_exec[5] != 0 or not got_ok[5]:
             out.violation("after the successful execution of a tainted target the next build runs it again (%s)" % variant, desc)
